@@ -6,7 +6,8 @@ from runner import Property, ExecError
 from vlib import cz, clist, cstr, cbool
 
 METHODS = ["GET", "POST", "PUT", "DELETE"]
-BAD_METHODS = ["FOO", "get", ""]
+ALL_METHODS = ["DELETE", "GET", "HEAD", "OPTIONS", "PATCH", "POST", "PUT"]
+BAD_METHODS = ["FOO", "get", "", "TRACE", "CONNECT"]
 REGERR = {0: "RegOk", 1: "RegInvalidMethod", 2: "RegInvalidPath", 3: "RegDuplicate", 4: "RegOther"}
 
 
@@ -53,20 +54,71 @@ def _join(g, p):
     return x if c is None else "/" + "/".join(c)
 
 
+def _server_regs(case, s):
+    """the (method, path) list the user wrote for server s: every table slice mounted on it before its
+    Start, each prefix applied in order (the Python twin of ServerModel.spec_regs; statistics and
+    request generation only — the judgement is done in Coq)"""
+    out = []
+    for ev in case["events"]:
+        if ev["ev"] == "start":
+            if ev["server"] == s:
+                break
+            continue
+        if ev["server"] != s:
+            continue
+        for m, p in case["tables"][ev["table"]][ev["lo"]:ev["hi"]]:
+            for o in ev["opts"]:
+                if o[0] == "prefix":
+                    p = _join(o[1], p)
+            out.append([m, p])
+    return out
+
+
 def _flat(case):
-    """the (method, path) list a case registers, in registration order"""
+    """every (method, path) a case registers (all servers)"""
     if case.get("kind") != "server":
         return case["regs"]
-    out = []
-    for g in case["groups"]:
-        for m, p in g["routes"]:
-            out.append([m, p if g["prefix"] is None else _join(g["prefix"], p)])
-    return out
+    return [r for s in range(len(case["servers"])) for r in _server_regs(case, s)]
 
 
 def _in_scope(regs):
     t = _accepted(regs)
     return all(m1 != m2 or _compat(p1, p2) for (m1, p1) in t for (m2, p2) in t)
+
+
+def _case_in_scope(case):
+    if case.get("kind") != "server":
+        return _in_scope(case["regs"])
+    return all(_in_scope(_server_regs(case, s)) for s in range(len(case["servers"])))
+
+
+def _first_error(regs):
+    t = []
+    for m, p in regs:
+        if m not in ("DELETE", "GET", "HEAD", "OPTIONS", "PATCH", "POST", "PUT"):
+            return 1
+        c = _clean(p)
+        if c is None:
+            return 2
+        if (m, c) in t:
+            return 3
+        t.append((m, c))
+    return 0
+
+
+def _from_groups(groups, reqs, nf=False, na=False, cors=False, use=False, **cfg):
+    """one server, one fresh table per group (the shape of the round-2 cases)"""
+    tables, events = [], []
+    for i, g in enumerate(groups):
+        tables.append(g["routes"])
+        opts = ([["timeout"], ["maxbytes"]] if g.get("opts") else []) \
+            + ([["prefix", g["prefix"]]] if g["prefix"] is not None else []) + ([["priority"]] if g.get("opts") else [])
+        events.append({"ev": "mount", "server": 0, "table": i, "lo": 0, "hi": len(g["routes"]), "single": bool(g.get("single")),
+                       "mw": bool(g.get("mw")), "tag": i, "opts": opts})
+    events.append({"ev": "start", "server": 0})
+    return {"kind": "server", "regs": [], "tables": tables,
+            "servers": [dict({"nf": nf, "na": na, "cors": cors, "use": use, "chain": False, "native": False, "must": False}, **cfg)],
+            "events": events, "reqs": [["0", m, p, "path"] for m, p in reqs]}
 
 
 class C09(Property):
@@ -105,7 +157,7 @@ class C09(Property):
 
     # ---- generation ---------------------------------------------------------
     def corpus(self):
-        return self._server_corpus() + [
+        router_cases = [
             {"nf": False, "na": False,
              "regs": [["GET", "/a/:x"], ["GET", "/a/b"], ["POST", "/a//b/"], ["FOO", "/a"], ["GET", "a"], ["GET", "/a/./b"],
                       ["GET", "/:x"], ["GET", "/"], ["PUT", "/:y"], ["GET", "/:x/:x"], ["GET", ""]],
@@ -126,29 +178,105 @@ class C09(Property):
             # outside the side condition: two variable names at one position
             {"nf": False, "na": False, "regs": [["GET", "/:x/a"], ["GET", "/:y/b"], ["GET", "/:x"], ["GET", "/:y"]],
              "reqs": [["GET", "/1/a"], ["GET", "/1/b"], ["GET", "/1"], ["GET", "/"]]},
+            # all seven methods, HEAD is not GET, OPTIONS is an ordinary method on the bare router, custom methods
+            {"nf": False, "na": False,
+             "regs": [[m, "/r/:id"] for m in ALL_METHODS] + [["TRACE", "/r/:id"], ["CONNECT", "/r"], ["GET", "/g"], ["HEAD", "/h"]],
+             "reqs": [[m, "/r/1"] for m in ALL_METHODS + ["TRACE", "CONNECT", "get", "PROPFIND", ""]]
+                     + [["HEAD", "/g"], ["GET", "/h"], ["OPTIONS", "/g"], ["OPTIONS", "*", "raw"], ["OPTIONS", "*"]]},
+            # what the server makes of unusual request targets (raw = parsed by net/http like a real request line)
+            {"nf": False, "na": False,
+             "regs": [["GET", "/a/:x/c"], ["GET", "/a/b"], ["GET", "/é/:名"], ["POST", "/a b/:x"], ["GET", "/%2F/:x"], ["GET", "/:x/:y/:z/:w"],
+                      ["PUT", "/a:b/:"], ["GET", "/*"], ["GET", "/" + "/".join(["s%d" % i for i in range(300)]) + "/:last"],
+                      ["GET", "/" + "L" * 5000]],
+             "reqs": [["GET", "/a/x%2Fy/c", "raw"], ["GET", "/a/%62", "raw"], ["GET", "/a/b?x=/c/d", "raw"], ["GET", "/a/b#f", "raw"],
+                      ["GET", "/a/%2e%2e/a/b", "raw"], ["GET", "/a/./b/", "raw"], ["GET", "//a//b//", "raw"], ["GET", "/a/../../a/b", "raw"],
+                      ["GET", "/%C3%A9/v%C3%A4rde", "raw"], ["GET", "/é/värde"], ["GET", "/é/日本"], ["POST", "/a%20b/1", "raw"], ["POST", "/a b/1"],
+                      ["GET", "/%252F/1", "raw"], ["GET", "/%2F/1", "raw"], ["GET", "/%2F/1"], ["GET", "http://other.host/a/b", "raw"],
+                      ["GET", "/a/b/c/d"], ["GET", "/a/b/c/d/e"], ["PUT", "/a:b/1"], ["PUT", "/a:b/"], ["GET", "/*"], ["GET", "/x"],
+                      ["GET", "/" + "/".join(["s%d" % i for i in range(300)]) + "/end"],
+                      ["GET", "/" + "/".join(["s%d" % i for i in range(299)]) + "/x/end"],
+                      ["GET", "/" + "L" * 5000], ["GET", "/" + "L" * 4999], ["GET", "/a/" + "v" * 20000 + "/c"],
+                      ["GET", "/" + "../" * 400 + "a/b"], ["GET", "/" + "z/" * 400 + "../" * 400 + "a/b", "raw"],
+                      ["GET", "/a/:x/c"], ["GET", "/a/%3Ax/c", "raw"], ["GET", "/a//c"], ["GET", "/a/ /c"]]},
+            # names that collide: one name twice in a pattern, the same name at different positions of competing routes
+            {"nf": False, "na": False,
+             "regs": [["GET", "/:x/a/:x"], ["GET", "/:x/b/:y"], ["GET", "/:x/:y/c/:x"], ["POST", "/:a/:a/:a"], ["PUT", "/:/:"]],
+             "reqs": [["GET", "/1/a/2"], ["GET", "/1/b/2"], ["GET", "/1/2/c/3"], ["GET", "/1/a/c/3"], ["POST", "/1/2/3"], ["PUT", "/1/2"],
+                      ["GET", "/1/c/2"]]},
+            # routes that differ only in variable names: outside the property's family, compared with the model only
+            {"nf": False, "na": False, "regs": [["GET", "/u/:id/x"], ["GET", "/u/:name/y"], ["GET", "/u/:id"], ["GET", "/u/:name"]],
+             "reqs": [["GET", "/u/1/x"], ["GET", "/u/1/y"], ["GET", "/u/1"], ["POST", "/u/1"]]},
         ]
+        return self._server_corpus() + router_cases
 
     def _server_corpus(self):
         def g(prefix, routes, mw=False, opts=False, single=False):
             return {"prefix": prefix, "mw": mw, "opts": opts, "single": single, "routes": routes}
-        base = {"kind": "server", "regs": [], "nf": False, "na": False, "cors": False, "use": False}
-        return [
-            dict(base, use=True,
-                 groups=[g("/api", [["GET", "/a/:x"], ["GET", "b"], ["POST", "/a/b/"]], mw=True, opts=True),
-                         g(None, [["GET", "/a/:x"], ["OPTIONS", "/o"]], single=True),
-                         g("/api/", [["PUT", "//c/../d"], ["GET", ""]], mw=True)],
-                 reqs=[["GET", "/api/a/1"], ["GET", "/api/b"], ["GET", "/a/7"], ["PUT", "/api/d"], ["GET", "/api"],
-                       ["POST", "/api/a/1"], ["DELETE", "/zz"], ["OPTIONS", "/o"], ["OPTIONS", "/api/b"]]),
-            dict(base, cors=True, groups=[g("/v1", [["GET", "/a"], ["OPTIONS", "/o"]])],
-                 reqs=[["GET", "/v1/a"], ["POST", "/v1/a"], ["OPTIONS", "/v1/o"], ["OPTIONS", "/v1/a"], ["OPTIONS", "/zz"], ["GET", "/zz"]]),
-            dict(base, groups=[g("/v1", [["GET", "/a"], ["GET", "/b"]]), g("/v1/", [["GET", "a/"]])], reqs=[["GET", "/v1/a"]]),
-            dict(base, groups=[g("v1", [["GET", "/a"]])], reqs=[["GET", "/v1/a"]]),
-            dict(base, groups=[g("/v1", [["FOO", "/a"]])], reqs=[["GET", "/v1/a"]]),
-            dict(base, nf=True, na=True, groups=[g("", [["GET", "/a"]])], reqs=[["GET", "/a"], ["PUT", "/a"], ["GET", "/b"]]),
-            # two groups, same paths, different prefixes: the prefix decides
-            dict(base, groups=[g("/x", [["GET", "/p/:id"], ["POST", "/p"]], mw=True), g("/y", [["GET", "/p/:id"], ["PUT", "/p"]], mw=True)],
-                 reqs=[["GET", "/x/p/1"], ["GET", "/y/p/2"], ["PUT", "/x/p"], ["POST", "/y/p"], ["GET", "/p/1"], ["GET", "/x/x/p/1"]]),
+
+        def mount(server, table, n, opts, lo=0, hi=None, single=False, mw=False, tag=0):
+            return {"ev": "mount", "server": server, "table": table, "lo": lo, "hi": n if hi is None else hi,
+                    "single": single, "mw": mw, "tag": tag, "opts": opts}
+
+        def srv(**kw):
+            return dict({"nf": False, "na": False, "cors": False, "use": False, "chain": False, "native": False, "must": False}, **kw)
+        users = [["GET", "/users/:id"], ["POST", "/users"], ["GET", "/users"]]
+        old = [
+            _from_groups([g("/api", [["GET", "/a/:x"], ["GET", "b"], ["POST", "/a/b/"]], mw=True, opts=True),
+                          g(None, [["GET", "/a/:x"], ["OPTIONS", "/o"]], single=True),
+                          g("/api/", [["PUT", "//c/../d"], ["GET", ""]], mw=True)],
+                         [["GET", "/api/a/1"], ["GET", "/api/b"], ["GET", "/a/7"], ["PUT", "/api/d"], ["GET", "/api"],
+                          ["POST", "/api/a/1"], ["DELETE", "/zz"], ["OPTIONS", "/o"], ["OPTIONS", "/api/b"]], use=True),
+            _from_groups([g("/v1", [["GET", "/a"], ["OPTIONS", "/o"]])],
+                         [["GET", "/v1/a"], ["POST", "/v1/a"], ["OPTIONS", "/v1/o"], ["OPTIONS", "/v1/a"], ["OPTIONS", "/zz"], ["GET", "/zz"]],
+                         cors=True),
+            _from_groups([g("/v1", [["GET", "/a"], ["GET", "/b"]]), g("/v1/", [["GET", "a/"]])], [["GET", "/v1/a"]]),
+            _from_groups([g("v1", [["GET", "/a"]])], [["GET", "/v1/a"]]),
+            _from_groups([g("/v1", [["FOO", "/a"]])], [["GET", "/v1/a"]]),
+            _from_groups([g("", [["GET", "/a"]])], [["GET", "/a"], ["PUT", "/a"], ["GET", "/b"]], nf=True, na=True),
+            _from_groups([g("/x", [["GET", "/p/:id"], ["POST", "/p"]], mw=True), g("/y", [["GET", "/p/:id"], ["PUT", "/p"]], mw=True)],
+                         [["GET", "/x/p/1"], ["GET", "/y/p/2"], ["PUT", "/x/p"], ["POST", "/y/p"], ["GET", "/p/1"], ["GET", "/x/x/p/1"]]),
         ]
+        base = {"kind": "server", "regs": []}
+        probe = [["GET", "/v1/users/7"], ["GET", "/v2/users/8"], ["PUT", "/v1/users"], ["DELETE", "/v2/users/1"], ["GET", "/v2/v1/users/7"],
+                 ["GET", "/v1/v2/users/7"], ["GET", "/users/7"], ["POST", "/v2/users"]]
+        new = [
+            # ONE table mounted under two prefixes on one server (the same slice value twice)
+            dict(base, tables=[users], servers=[srv()],
+                 events=[mount(0, 0, 3, [["prefix", "/v1"]]), mount(0, 0, 3, [["prefix", "/v2"]]), {"ev": "start", "server": 0}],
+                 reqs=[["0"] + r + ["path"] for r in probe]),
+            # ONE table shared by two servers under different prefixes; requests to both
+            dict(base, tables=[users], servers=[srv(), srv(use=True)],
+                 events=[mount(0, 0, 3, [["prefix", "/v1"]]), mount(1, 0, 3, [["timeout"], ["prefix", "/v2"]]),
+                         {"ev": "start", "server": 0}, {"ev": "start", "server": 1}],
+                 reqs=[[s] + r + ["path"] for s in ("0", "1") for r in probe]),
+            # the first server starts before the table is mounted on the second one
+            dict(base, tables=[users], servers=[srv(), srv()],
+                 events=[mount(0, 0, 3, [["prefix", "/v1"]]), {"ev": "start", "server": 0}, mount(1, 0, 3, [["prefix", "/v2"]]),
+                         {"ev": "start", "server": 1}],
+                 reqs=[[s] + r + ["path"] for s in ("0", "1") for r in probe]),
+            # plain + prefixed, overlapping sub-slices, AddRoute, two prefixes in one call, every harmless option
+            dict(base, tables=[users, [["GET", "/h"], ["PUT", "/users/:id"]]], servers=[srv(native=True, chain=True, use=True, must=True)],
+                 events=[mount(0, 0, 3, []), mount(0, 0, 3, [["prefix", "/v1"], ["sse"], ["jwt"]], lo=0, hi=2),
+                         mount(0, 0, 3, [["priority"], ["prefix", "/v2"], ["maxbytes"]], lo=1, hi=3, single=True),
+                         mount(0, 1, 2, [["prefix", "/in"], ["prefix", "/out"]], mw=True, tag=3),
+                         mount(0, 1, 2, [["prefix", "/v1"]], lo=1, hi=2), {"ev": "start", "server": 0}],
+                 reqs=[["0"] + r + ["path"] for r in probe + [["GET", "/out/in/h"], ["GET", "/in/out/h"], ["PUT", "/v1/users/3"],
+                                                             ["GET", "/v2/users"], ["GET", "/v1/users"], ["PUT", "/out/in/users/9"]]]),
+            # same table twice under the same prefix: Start must die with the duplicate
+            dict(base, tables=[users], servers=[srv()],
+                 events=[mount(0, 0, 3, [["prefix", "/v1"]]), mount(0, 0, 3, [["prefix", "/v1/"]]), {"ev": "start", "server": 0}],
+                 reqs=[["0", "GET", "/v1/users", "path"]]),
+            # prefix with a variable / needing cleaning / unrooted route paths made rooted by the prefix
+            dict(base, tables=[[["GET", "items/:id"], ["GET", ""], ["POST", "/"], ["GET", "../up"]]], servers=[srv(nf=True, na=True)],
+                 events=[mount(0, 0, 4, [["prefix", "/t/:tenant"]]), mount(0, 0, 4, [["prefix", "/x/./y//"]], lo=0, hi=3),
+                         {"ev": "start", "server": 0}],
+                 reqs=[["0", "GET", "/t/acme/items/5", "path"], ["0", "GET", "/t/acme", "path"], ["0", "POST", "/t/acme", "path"],
+                       ["0", "GET", "/t/up", "path"], ["0", "GET", "/x/y/items/5", "path"], ["0", "PUT", "/x/y", "path"],
+                       ["0", "GET", "/t/acme/up", "path"], ["0", "GET", "/t", "path"], ["0", "GET", "/t/a%2Fb/items/5", "raw"]]),
+        ]
+        return old + new
+
+    SEGS_ODD = ["ab", ":", "a:b", "...", ":xy", "é", "日本", "a b", "%2F", "*", "~", "A", ":X", "x" * 300]
 
     def _pattern(self, rng, names, wfbias):
         depth = rng.choice([0, 1, 1, 2, 2, 2, 3, 3, 4])
@@ -161,14 +289,14 @@ class C09(Property):
                 s = rng.choice([":x", ":y"])
                 if wfbias:
                     s = names.setdefault(tuple(segs), s)
-            elif r < 0.88:
+            elif r < 0.87:
                 s = ""
-            elif r < 0.93:
+            elif r < 0.91:
                 s = "."
-            elif r < 0.97:
+            elif r < 0.95:
                 s = ".."
             else:
-                s = rng.choice(["ab", ":", "a:b", "...", ":xy"])
+                s = rng.choice(self.SEGS_ODD)
             segs.append(s)
         p = "/" + "/".join(segs)
         r = rng.random()
@@ -182,7 +310,7 @@ class C09(Property):
         r = rng.random()
         if regs and r < 0.65:
             c = _clean(rng.choice(regs)[1]) or [""]
-            segs = [(rng.choice(["a", "b", "c", "1"]) if s.startswith(":") else s) for s in c]
+            segs = [(rng.choice(["a", "b", "c", "1", "é", "a b", ":x", "%2F"]) if s.startswith(":") else s) for s in c]
             m = rng.random()
             if m < 0.15 and segs:
                 segs[rng.randrange(len(segs))] = rng.choice(["a", "b", "c"])
@@ -209,7 +337,41 @@ class C09(Property):
             depth = rng.choice([0, 1, 1, 2, 2, 3, 4])
             segs = [rng.choice(["a", "a", "b", "b", "c", "", ".", "..", ":x"]) for _ in range(depth)]
             return "/" + "/".join(segs)
-        return rng.choice(["", "a", "a/b", ".", "../a"])
+        return rng.choice(["", "a", "a/b", ".", "../a", "*"])
+
+    RAW_SAFE = set("abcdefghijklmnopqrstuvwxyzABCDEFGHIJKLMNOPQRSTUVWXYZ0123456789/-._~:*")
+
+    def _raw(self, rng, p):
+        """a request target that net/http decodes to the path p: some bytes percent-encoded (always those that
+        are not allowed raw), sometimes with a query"""
+        if not p.startswith("/"):
+            return None
+        out = []
+        for b in p.encode("utf-8"):
+            ch = chr(b)
+            if ch not in self.RAW_SAFE or rng.random() < 0.15:
+                out.append("%%%02X" % b if rng.random() < 0.7 else "%%%02x" % b)
+            else:
+                out.append(ch)
+        t = "".join(out)
+        if not t.startswith("/"):
+            t = "/" + t[3:]        # the leading slash must stay literal
+        if rng.random() < 0.15:
+            t += rng.choice(["?q=1", "?p=/a/b", "?"])
+        return t
+
+    def _request(self, rng, regs, methods):
+        """[method, target, mode]"""
+        m = rng.choice(methods)
+        r = rng.random()
+        if r < 0.06:
+            m = rng.choice(["FOO", "HEAD", "get", "TRACE", "OPTIONS", "PATCH", "CONNECT"])
+        p = self._reqpath(rng, regs)
+        if rng.random() < 0.2 and m not in ("CONNECT", ""):
+            t = self._raw(rng, p)
+            if t is not None:
+                return [m, t, "raw"]
+        return [m, p, "path"]
 
     def _generalise(self, rng, base, names):
         """a pattern obtained from the literal path [base] by turning some segments into variables
@@ -230,11 +392,12 @@ class C09(Property):
             segs.pop()
         return "/" + "/".join(segs)
 
-    def _table(self, rng):
+    def _table(self, rng, methods=None):
         wfbias = rng.random() < 0.7
         nreg = rng.randint(1, 12)
         nmeth = rng.choice([1, 2, 2, 3, 4])
-        meths = rng.sample(METHODS, nmeth)
+        pool = methods or (METHODS if rng.random() < 0.8 else ALL_METHODS)
+        meths = rng.sample(pool, min(nmeth, len(pool)))
         regs = []
         per_method_names = {}
         base = None
@@ -259,78 +422,101 @@ class C09(Property):
         for _ in range(n):
             regs, base = self._table(rng)
             reqs = []
+            ms = sorted(set(m for m, _ in regs if m in ALL_METHODS)) or METHODS
             if base:
-                ms = sorted(set(m for m, _ in regs if m in METHODS)) or METHODS
-                reqs.append([rng.choice(ms), "/" + "/".join(base)])
-                reqs.append([rng.choice(ms), "/" + "/".join(base[:-1] + [rng.choice(["a", "b", "c"])])])
+                reqs.append([rng.choice(ms), "/" + "/".join(base), "path"])
+                reqs.append([rng.choice(ms), "/" + "/".join(base[:-1] + [rng.choice(["a", "b", "c"])]), "path"])
             for _ in range(rng.randint(4, 14)):
-                m = rng.choice(METHODS)
-                if rng.random() < 0.06:
-                    m = rng.choice(["FOO", "HEAD", "get"])
-                reqs.append([m, self._reqpath(rng, regs)])
+                reqs.append(self._request(rng, regs, METHODS if rng.random() < 0.7 else ms))
             c = rng.random()
             cases.append({"nf": c < 0.1, "na": 0.05 < c < 0.15, "regs": regs, "reqs": reqs})
-        nserver = max(1, n // 4)
+        nserver = max(1, n // 3)
         for _ in range(nserver):
             cases.append(self._server_case(rng))
         if tier == "thorough":
             cases += self._exhaustive()
         return cases
 
-    PREFIXES = [None, None, "", "/", "/api", "/api", "/api/", "/v1/a", "/a", "/b", "/:x", "/a/:y", "/api/../a", "api"]
+    PREFIXES = ["", "/", "/api", "/api/", "/v1", "/v2", "/v1/a", "/a", "/b", "/:x", "/a/:y", "/api/../a", "api", "/é", "/v1//x/."]
 
     def _server_case(self, rng):
-        regs, base = self._table(rng)
-        good = rng.random() < 0.8
-        if good:   # mostly tables that Start can bind: no bad methods / unrooted patterns / duplicates
-            regs = [r for r in regs if r[0] in METHODS]
-        ngroups = rng.randint(1, 3)
-        groups = [{"prefix": rng.choice(self.PREFIXES), "mw": rng.random() < 0.4, "opts": rng.random() < 0.3,
-                   "single": rng.random() < 0.2, "routes": []} for _ in range(ngroups)]
-        if good:
-            for g in groups:
-                if g["prefix"] == "api":
-                    g["prefix"] = "/api"
-        for r in regs:
-            g = rng.choice(groups)
-            p = r[1]
-            if good and not p.startswith("/") and (g["prefix"] in (None, "")):
-                p = "/" + p
-            g["routes"].append([r[0], p])
-        groups = [g for g in groups if g["routes"]] or [dict(groups[0], routes=[["GET", "/a"]])]
-        if rng.random() < 0.15:   # OPTIONS / HEAD routes (valid methods; OPTIONS interacts with CORS)
-            groups[0]["routes"].append([rng.choice(["OPTIONS", "HEAD"]), rng.choice(["/o", "/a", "/:x"])])
-        case = {"kind": "server", "regs": [], "groups": groups, "cors": False, "use": rng.random() < 0.3, "nf": False, "na": False}
-        if good:
-            # drop later duplicates (after prefixing and cleaning) so that Start succeeds
-            seen = set()
-            for g in groups:
-                keep = []
-                for m, p0 in g["routes"]:
-                    p = p0 if g["prefix"] is None else _join(g["prefix"], p0)
-                    c = _clean(p)
-                    key = (m, tuple(c) if c is not None else None)
-                    if c is None or key in seen:
+        good = rng.random() < 0.8      # mostly tables that Start can bind
+        ntab = rng.choice([1, 1, 2, 2, 3])
+        tables = []
+        for _ in range(ntab):
+            regs, _ = self._table(rng)
+            if good:
+                seen, keep = set(), []
+                for m, p in regs:
+                    if m not in ALL_METHODS:
+                        continue
+                    if not p.startswith("/") and rng.random() < 0.7:
+                        p = "/" + p
+                    key = (m, tuple(_clean("/" + p) or []))
+                    if key in seen:
                         continue
                     seen.add(key)
-                    keep.append([m, p0])
-                g["routes"] = keep
-            case["groups"] = [g for g in groups if g["routes"]] or [dict(groups[0], routes=[["GET", "/a"]])]
-        c = rng.random()
-        if c < 0.2:
-            case["cors"] = True
-        elif c < 0.4:
-            case["nf"], case["na"] = rng.random() < 0.6, rng.random() < 0.6
-        flat = _flat(case)
+                    keep.append([m, p])
+                regs = keep or [["GET", "/a"]]
+            if rng.random() < 0.15:   # OPTIONS / HEAD routes (valid methods; OPTIONS interacts with CORS)
+                regs.append([rng.choice(["OPTIONS", "HEAD"]), rng.choice(["/o", "/a", "/:x"])])
+            tables.append(regs[:8])
+        nsrv = rng.choice([1, 1, 2, 2, 3])
+        servers = []
+        for _ in range(nsrv):
+            c = rng.random()
+            servers.append({"cors": c < 0.15, "nf": 0.15 < c < 0.35 and rng.random() < 0.6, "na": 0.15 < c < 0.35 and rng.random() < 0.6,
+                            "use": rng.random() < 0.3, "chain": rng.random() < 0.15, "native": rng.random() < 0.25,
+                            "must": rng.random() < 0.2})
+        nmount = rng.randint(1, 5)
+        mounts = []
+        used = {}
+        for k in range(nmount):
+            s = rng.randrange(nsrv)
+            # re-mounting a table that is already mounted somewhere is the interesting case
+            t = rng.choice([m["table"] for m in mounts]) if mounts and rng.random() < 0.6 else rng.randrange(ntab)
+            n = len(tables[t])
+            lo, hi = 0, n
+            if n > 1 and rng.random() < 0.25:
+                lo = rng.randrange(n)
+                hi = rng.randint(lo + 1, n)
+            opts = []
+            if rng.random() < 0.85:
+                taken = used.setdefault(s, set())
+                pre = rng.choice(self.PREFIXES)
+                if good:
+                    free = [p for p in self.PREFIXES if p not in taken and p != "api"]
+                    pre = rng.choice(free) if free else "/m%d" % k
+                taken.add(pre)
+                opts.append(["prefix", pre])
+                if rng.random() < 0.12:
+                    opts.append(["prefix", rng.choice(["/p", "/q/", "/:p"])])
+            for o in ("timeout", "maxbytes", "priority", "sse", "jwt"):
+                if rng.random() < 0.12:
+                    opts.append([o])
+            rng.shuffle(opts)
+            mounts.append({"ev": "mount", "server": s, "table": t, "lo": lo, "hi": hi, "single": rng.random() < 0.15,
+                           "mw": rng.random() < 0.25, "tag": k, "opts": opts})
+        # Start of every server once, somewhere after its last mount
+        events = list(mounts)
+        for s in range(nsrv):
+            last = max([i for i, e in enumerate(events) if e["ev"] == "mount" and e["server"] == s], default=-1)
+            pos = len(events) if rng.random() < 0.6 else rng.randint(last + 1, len(events))
+            events.insert(pos, {"ev": "start", "server": s})
+        case = {"kind": "server", "regs": [], "tables": tables, "servers": servers, "events": events}
+        # requests: derived from the routes of the addressed server, of the other servers, from the tables as written,
+        # and from prefixes stacked on each other
+        per = [_server_regs(case, s) for s in range(nsrv)]
+        written = [r for t in tables for r in t]
+        prefixes = [o[1] for e in mounts for o in e["opts"] if o[0] == "prefix"] or [""]
+        stacked = [[m, _join(rng.choice(prefixes), p)] for rs in per for m, p in rs][:20]
         reqs = []
-        for _ in range(rng.randint(4, 12)):
-            m = rng.choice(METHODS)
+        for _ in range(rng.randint(5, 14)):
+            s = rng.randrange(nsrv)
             r = rng.random()
-            if r < 0.08:
-                m = rng.choice(["FOO", "HEAD"])
-            elif r < 0.2:
-                m = "OPTIONS"
-            reqs.append([m, self._reqpath(rng, flat)])
+            pool = per[s] if r < 0.6 else (rng.choice(per) if r < 0.75 else (stacked if r < 0.9 else written))
+            ms = sorted(set(m for m, _ in per[s] if m in ALL_METHODS)) or METHODS
+            reqs.append([str(s)] + self._request(rng, pool, ms + ["OPTIONS"] if servers[s]["cors"] else ms + METHODS))
         case["reqs"] = reqs
         return case
 
@@ -361,12 +547,20 @@ class C09(Property):
             if r.get("err"):
                 raise ExecError("c09 executor: case %s: %s" % (r.get("id"), r["err"]))
         return [{"regerr": r["regerr"], "pclean": r["pclean"], "res": r["res"],
-                 "start": r.get("start", 0), "routes": r.get("routes") or []} for r in res]
+                 "starts": r.get("starts") or [], "routes": r.get("routes") or [], "tables_after": r.get("tables_after") or []}
+                for r in res]
+
+    def _henc(self, r):
+        """identity of the handler that ran: route id, plus the WithMiddlewares tag it was wrapped with"""
+        tags = [t for t in (r.get("mws") or []) if t < 1000]
+        if len(tags) > 1:
+            return -1
+        return r["h"] + (100000 * (tags[0] + 1) if tags else 0)
 
     def _resp(self, r):
         k = r["k"]
         if k == "h":
-            return "(RHandler %s %s)" % (cz(r["h"]), clist(["(%s, %s)" % (cstr(a), cstr(b)) for a, b in r["vars"]]))
+            return "(RHandler %s %s)" % (cz(self._henc(r)), clist(["(%s, %s)" % (cstr(a), cstr(b)) for a, b in r["vars"]]))
         if k == "na":
             return "(RNotAllowed %s)" % clist([cstr(m) for m in r["allow"]])
         if k == "nac":
@@ -384,22 +578,36 @@ class C09(Property):
         return "(SResp %s)" % self._resp(r)
 
     def _server_case_term(self, case, obs):
-        groups = []
-        h = 0
-        for g in case["groups"]:
+        tables, h = [], 0
+        for t in case["tables"]:
             rs = []
-            for m, p in g["routes"]:
+            for m, p in t:
                 rs.append("mkReg %s %s %s" % (cstr(m), cstr(p), cz(h)))
                 h += 1
-            pre = "None" if g["prefix"] is None else "(Some %s)" % cstr(g["prefix"])
-            groups.append("mkGroup %s %s %s" % (pre, cbool(g["mw"]), clist(rs)))
-        start = "ObsStarted" if obs["start"] == 0 else "(ObsFailed %s)" % REGERR.get(obs["start"], "RegOther")
-        routes = clist(["(%s, %s)" % (cstr(m), cstr(p)) for m, p in obs["routes"]])
-        reqs = clist(["mkSReq %s %s %s %s" % (cstr(m), cstr(p), self._sresp(r), clist([cz(t) for t in r.get("mws") or []]))
-                      for (m, p), r in zip(case["reqs"], obs["res"])])
-        return "CServer (mkSCase %s %s %s %s %s %s %s %s)" % (
-            cbool(case["nf"]), cbool(case["na"]), cbool(case["cors"]), cbool(case["use"]),
-            clist(groups), start, routes, reqs)
+            tables.append(clist(rs))
+        cfgs = clist(["mkCfg %s %s %s %s %s" % (cbool(c["nf"]), cbool(c["na"]), cbool(c["cors"]), cbool(c["use"]), cbool(c["chain"]))
+                      for c in case["servers"]])
+        evs = []
+        for e in case["events"]:
+            if e["ev"] == "start":
+                evs.append("EStart %d" % e["server"])
+                continue
+            opts = clist(["OPrefix %s" % cstr(o[1]) if o[0] == "prefix" else "OOther" for o in e["opts"]])
+            evs.append("EMount (mkMount %d %d %d %d %s %s %s)" % (
+                e["server"], e["table"], e["lo"], e["hi"], cbool(e["single"]),
+                ("(Some %s)" % cz(e["tag"])) if e["mw"] else "None", opts))
+        starts = clist(["ObsNever" if s == -1 else ("ObsStarted" if s == 0 else "(ObsFailed %s)" % REGERR.get(s, "RegOther"))
+                        for s in obs["starts"]])
+        pl = lambda rs: clist(["(%s, %s)" % (cstr(m), cstr(p)) for m, p in rs])
+        routes = clist([pl(rs) for rs in obs["routes"]])
+        after = clist([pl(rs) for rs in obs["tables_after"]])
+        reqs = []
+        for rq, r in zip(case["reqs"], obs["res"]):
+            if r["k"] in ("down", "badreq"):
+                continue      # the server did not start / net/http rejected the request line: nothing was routed
+            reqs.append("mkSReq %d %s %s %s %s" % (int(rq[0]), cstr(rq[1]), cstr(r["path"]), self._sresp(r),
+                                                   clist([cz(t) for t in r.get("mws") or []])))
+        return "CServer (mkSCase %s %s %s %s %s %s %s)" % (clist(tables), cfgs, clist(evs), starts, routes, after, clist(reqs))
 
     def coq_case(self, case, obs):
         if case.get("kind") == "server":
@@ -407,15 +615,16 @@ class C09(Property):
         regs = clist(["mkReg %s %s %s" % (cstr(m), cstr(p), cz(i)) for i, (m, p) in enumerate(case["regs"])])
         regobs = clist([REGERR.get(e, "RegOther") for e in obs["regerr"]])
         pclean = clist([cstr(s) for s in obs["pclean"]])
-        reqs = clist(["mkReq %s %s %s %s" % (cstr(m), cstr(p), cstr(r["clean"]), self._resp(r))
-                      for (m, p), r in zip(case["reqs"], obs["res"])])
+        reqs = clist(["mkReq %s %s %s %s" % (cstr(rq[0]), cstr(r["path"]), cstr(r["clean"]), self._resp(r))
+                      for rq, r in zip(case["reqs"], obs["res"]) if r["k"] != "badreq"])
         return "CRouter (mkCase %s %s %s %s %s %s)" % (cbool(case["nf"]), cbool(case["na"]), regs, regobs, pclean, reqs)
 
     # ---- statistics -------------------------------------------------------------
     def nontrivial(self, case, obs):
-        if not _in_scope(_flat(case)):
+        if not _case_in_scope(case):
             return False
-        if case.get("kind") == "server" and obs["start"] != 0:
+        server = case.get("kind") == "server"
+        if server and not any(s == 0 for s in obs["starts"]):
             return False
         t = _accepted(_flat(case))
         compete = False
@@ -427,47 +636,99 @@ class C09(Property):
                             compete = compete or (a.startswith(":") != b.startswith(":"))
                             break
         ks = [r["k"] for r in obs["res"]]
-        return compete and any(r["k"] == "h" and r["vars"] for r in obs["res"]) and ("na" in ks or "nf" in ks)
+        ok = compete and any(r["k"] == "h" and r["vars"] for r in obs["res"]) and ("na" in ks or "nf" in ks)
+        if server:   # a server case must also re-use a table
+            tabs = [e["table"] for e in case["events"] if e["ev"] == "mount"]
+            ok = ok and len(tabs) != len(set(tabs))
+        return ok
 
     def features(self, case, obs):
-        fs = ["in_scope" if _in_scope(_flat(case)) else "outside_side_condition",
-              "routes=%d" % len(_accepted(_flat(case))), "kind_" + (case.get("kind") or "router")]
+        flat = _flat(case)
+        fs = ["in_scope" if _case_in_scope(case) else "outside_side_condition",
+              "routes=%d" % min(len(_accepted(flat)), 20), "kind_" + (case.get("kind") or "router")]
         if case.get("kind") == "server":
-            fs.append("start_" + REGERR.get(obs["start"], "RegOther"))
-            fs += [k for k in ("cors", "use", "nf", "na") if case[k]]
-            fs.append("groups=%d" % len(case["groups"]))
-            if any(g["prefix"] for g in case["groups"]):
-                fs.append("has_prefix")
+            fs += ["start_" + ("never" if s == -1 else REGERR.get(s, "RegOther")) for s in sorted(set(obs["starts"]))]
+            for c in case["servers"]:
+                fs += ["srv_" + k for k in ("cors", "use", "nf", "na", "chain", "native", "must") if c[k]]
+            mounts = [e for e in case["events"] if e["ev"] == "mount"]
+            fs.append("servers=%d" % len(case["servers"]))
+            fs.append("mounts=%d" % len(mounts))
+            tabs = [e["table"] for e in mounts]
+            if len(tabs) != len(set(tabs)):
+                fs.append("table_mounted_twice")
+            if len(set((e["table"], e["server"]) for e in mounts)) > len(set(tabs)):
+                fs.append("table_shared_by_servers")
+            if any(e["lo"] > 0 or e["hi"] < len(case["tables"][e["table"]]) for e in mounts):
+                fs.append("sub_slice")
+            if any(e["single"] for e in mounts):
+                fs.append("AddRoute")
+            if any(e["mw"] for e in mounts):
+                fs.append("WithMiddlewares")
+            fs += sorted(set("opt_" + o[0] for e in mounts for o in e["opts"]))
+            if any(len([o for o in e["opts"] if o[0] == "prefix"]) > 1 for e in mounts):
+                fs.append("two_prefixes")
+            ix = [i for i, e in enumerate(case["events"]) if e["ev"] == "start"]
+            if ix and any(e["ev"] == "mount" for e in case["events"][ix[0]:]):
+                fs.append("start_before_other_mounts")
         fs += ["reg_" + REGERR.get(e, "RegOther") for e in sorted(set(obs["regerr"]))]
         fs += ["resp_" + k for k in sorted(set(r["k"] for r in obs["res"]))]
-        if any(_clean(p) is not None and "/" + "/".join(_clean(p)) != p for _, p in case["reqs"]):
+        if any(r["k"] not in ("down", "badreq") and r["clean"] != r["path"] for r in obs["res"]):
             fs.append("path_needs_cleaning")
+        if any(rq[-1] == "raw" for rq in case["reqs"] if len(rq) > 2):
+            fs.append("raw_target")
+        if any(r["k"] not in ("down", "badreq") and rq[-2] != r["path"] for rq, r in zip(case["reqs"], obs["res"]) if rq[-1] == "raw"):
+            fs.append("target_decoded")
+        if any(any(ord(ch) > 127 for ch in r.get("path", "")) for r in obs["res"]):
+            fs.append("non_ascii_path")
         if any(len(r["vars"]) >= 2 for r in obs["res"]):
             fs.append("vars>=2")
+        if any(r["k"] == "na" and len(r["allow"]) >= 2 for r in obs["res"]):
+            fs.append("allow>=2")
         return fs
 
     def _shrink_server(self, case):
         res = []
-        reqs, groups = case["reqs"], case["groups"]
+        reqs, events, tables = case["reqs"], case["events"], case["tables"]
         for i in range(len(reqs)):
             if len(reqs) > 1:
                 res.append(dict(case, reqs=reqs[:i] + reqs[i + 1:]))
         if len(reqs) > 2:
             for i in range(len(reqs)):
                 res.append(dict(case, reqs=[reqs[i]]))
-        for i in range(len(groups)):
-            if len(groups) > 1:
-                res.append(dict(case, groups=groups[:i] + groups[i + 1:]))
-            g = groups[i]
-            for j in range(len(g["routes"])):
-                if len(g["routes"]) > 1:
-                    res.append(dict(case, groups=groups[:i] + [dict(g, routes=g["routes"][:j] + g["routes"][j + 1:])] + groups[i + 1:]))
-            for k in ("opts", "single"):
-                if g[k]:
-                    res.append(dict(case, groups=groups[:i] + [dict(g, **{k: False})] + groups[i + 1:]))
-        for k in ("use", "nf", "na"):
-            if case[k]:
-                res.append(dict(case, **{k: False}))
+        for i, e in enumerate(events):
+            if e["ev"] != "mount":
+                continue
+            if sum(1 for x in events if x["ev"] == "mount") > 1:
+                res.append(dict(case, events=events[:i] + events[i + 1:]))
+            for j in range(len(e["opts"])):
+                res.append(dict(case, events=events[:i] + [dict(e, opts=e["opts"][:j] + e["opts"][j + 1:])] + events[i + 1:]))
+            for k in ("single", "mw"):
+                if e[k]:
+                    res.append(dict(case, events=events[:i] + [dict(e, **{k: False})] + events[i + 1:]))
+            if e["lo"] > 0 or e["hi"] < len(tables[e["table"]]):
+                res.append(dict(case, events=events[:i] + [dict(e, lo=0, hi=len(tables[e["table"]]))] + events[i + 1:]))
+        # drop one route of a table (slice bounds follow)
+        for t in range(len(tables)):
+            for j in range(len(tables[t])):
+                if len(tables[t]) <= 1:
+                    continue
+                nt = tables[:t] + [tables[t][:j] + tables[t][j + 1:]] + tables[t + 1:]
+                ne = []
+                for e in events:
+                    if e["ev"] == "mount" and e["table"] == t:
+                        lo = e["lo"] - (1 if j < e["lo"] else 0)
+                        hi = e["hi"] - (1 if j < e["hi"] else 0)
+                        e = dict(e, lo=lo, hi=max(hi, lo))
+                    ne.append(e)
+                res.append(dict(case, tables=nt, events=ne))
+        for s, c in enumerate(case["servers"]):
+            for k in ("use", "nf", "na", "chain", "native", "must"):
+                if c[k]:
+                    res.append(dict(case, servers=case["servers"][:s] + [dict(c, **{k: False})] + case["servers"][s + 1:]))
+        # move every Start to the end
+        tail = [e for e in events if e["ev"] == "start"]
+        if events[-len(tail):] != tail:
+            res.append(dict(case, events=[e for e in events if e["ev"] == "mount"] + tail))
         return res[:300]
 
     def shrink_candidates(self, case):
@@ -487,18 +748,21 @@ class C09(Property):
             c = _clean(p)
             if c is not None and "/" + "/".join(c) != p:
                 res.append(dict(case, regs=regs[:i] + [[m, "/" + "/".join(c)]] + regs[i + 1:]))
-        for i, (m, p) in enumerate(reqs):
+        for i, rq in enumerate(reqs):
+            m, p = rq[0], rq[1]
+            if len(rq) > 2 and rq[2] == "raw":
+                continue
             c = _clean(p)
             if c is not None and "/" + "/".join(c) != p:
-                res.append(dict(case, reqs=reqs[:i] + [[m, "/" + "/".join(c)]] + reqs[i + 1:]))
+                res.append(dict(case, reqs=reqs[:i] + [[m, "/" + "/".join(c), "path"]] + reqs[i + 1:]))
         if case["nf"] or case["na"]:
             res.append(dict(case, nf=False, na=False))
         return res[:300]
 
     def describe_failure(self, case, obs):
-        return ("a request was not answered as the route list prescribes (wrong/missing handler, handler that is not the "
-                "literal-over-variable best match, wrong variables, wrong 405/Allow/404) or a registration was not "
-                "accepted/rejected as prescribed")
+        return ("a request was not answered as the route tables the user wrote prescribe (wrong/missing handler, handler that "
+                "is not the literal-over-variable best match, wrong variables, wrong 405/Allow/404, wrong middleware wrapping) "
+                "or a registration / Start was not accepted/rejected as prescribed")
 
 
 PROPERTY = C09()
